@@ -60,6 +60,7 @@ def is_array_kind(kind):
 
 
 LAY = [0]
+NMAG = [-1]
 
 
 def run_history(darsia, rng, tid, kind, dim, hist, h, payload, as_image, use_voxel_size, mixed=None):
@@ -163,6 +164,9 @@ def normalize_event(darsia, rng, tid, dim):
     (difference images have negative net integrals), all payload layouts; precondition: no integral of img is zero."""
     n = NATIVE[dim]
     h = [rng.choice([0.5, 0.1, 0.25]) for _ in range(dim)]
+    # (voxel sizes in turn: ordinary; micrometres - integrals of order 1e-9 and below; kilometres)
+    NMAG[0] += 1
+    h = [x * [1.0, 2e-6, 1e3][NMAG[0] % 3] for x in h]
     geom, w = build_geometry(darsia, rng, rng.choice(["plain", "weighted-scalar", "weighted-array"]), dim, n, h, False)
     layout = rng.choice(["scalar", "series", "vector", "vseries"])
     tail = {"scalar": (), "series": (3,), "vector": (2,), "vseries": (3, 2)}[layout]
